@@ -123,6 +123,14 @@ pub fn productions() -> Vec<Prod> {
         B "term_nest"    "/ ‹M›: ‹M›\n  / ‹M›: ‹M›";
         B "term_cont"    "/ ‹M›: ‹M›\n  ‹M›";
         B "list_enum"    "- ‹M›\n  + ‹M›";
+        // degenerate block elements: an empty term, description, item or heading
+        B "term_no_term" "/ : ‹M›";
+        B "term_no_desc" "/ ‹M›:";
+        B "term_empty"   "/ :\n‹M›";
+        B "list_empty"   "-\n- ‹M›";
+        B "enum_empty"   "+\n+ ‹M›";
+        B "list_nest_empty" "- ‹M›\n  -";
+        B "heading_empty" "=\n‹M›";
         // ---------------- inline markup
         M "words"        "foo bar";
         M "seq_sp"       "‹M› ‹M›";
@@ -171,6 +179,7 @@ pub fn productions() -> Vec<Prod> {
         E "content_e_sp" "[ ‹B› ]";
         E "content_e_ml" "[\n  ‹B›\n]";
         E "paren"        "(‹E›)";
+        E "paren_stmt"   "(‹S›)";
         E "paren2"       "((‹E›))";
         E "arr0"         "()";
         E "arr1"         "(‹E›,)";
